@@ -69,6 +69,18 @@ def log_of(q):
     return math.log(q)
 
 
+def short(x, limit=400):
+    """repr for replay documents that survives huge exact rationals (Python refuses to print > 4300 digits)."""
+    try:
+        r = repr(x)
+    except ValueError:
+        try:
+            r = "~" + repr(float(x))
+        except (TypeError, ValueError, OverflowError):
+            r = f"<unprintable {type(x).__name__}>"
+    return r if len(r) <= limit else r[:limit] + "..."
+
+
 # ------------------------------------------------------------------------------------------ validation
 def _finite_shapes():
     F = Fraction
@@ -140,6 +152,7 @@ def selfcheck():
         if total != 0:
             assert cfgspec.treesums(Q, gn)[0][gn.S] == 1
     assert abs(log_of(Fraction(1, 10 ** 400)) + 400 * math.log(10)) < 1e-9
+    assert short(Fraction(1, 10 ** 5000)) == "~0.0" and short(Fraction(1, 3)) == "Fraction(1, 3)"
     return n
 
 
